@@ -619,6 +619,35 @@ func (s Scenario) shape() string {
 	return strings.Join(rs, "||") + "/" + strings.Join(ks, "+")
 }
 
+// kinds: the kinds of signal sources the scenario's threads touch (part of a violation's class signature).
+func (s Scenario) kinds() string {
+	sh := s.shape()
+	if k := sh[strings.Index(sh, "/")+1:]; k != "" {
+		return k
+	}
+	return "static-checks"
+}
+
+// msgClass classifies a /health 503 message that no failing check explains.
+func (w *world) msgClass(q reqObs) string {
+	switch q.Msg {
+	case "starting":
+		return "starting-fallback(no-failing-check-left)"
+	case "fail":
+		return "fail-fallback(empty-message)"
+	case "":
+		return "empty"
+	}
+	for _, e := range w.health {
+		for _, wr := range w.comps[e.comp].writes {
+			if !wr.v.Pass && wr.v.Msg == q.Msg {
+				return "another-check's"
+			}
+		}
+	}
+	return "unknown-text"
+}
+
 func (s Scenario) String() string {
 	var ts []string
 	for _, p := range s.Threads {
@@ -705,7 +734,11 @@ func judgeSched(sc Scenario, r *vrt.Result, w *world) (sig, msg string) {
 		return "conc/harness", "request count mismatch"
 	}
 	if k, d, q := w.judge(); k != "" {
-		return "conc/" + k + "/" + sc.shape(), fmt.Sprintf("%s: GET %s over [%d,%d] answered %d listed=%v message=%q, which no registered set / source values inside the request interval explain (%s %s). history: %s",
+		sig := "conc/" + k + "/" + sc.kinds()
+		if strings.Contains(k, "503-message") {
+			sig += "/message=" + w.msgClass(q)
+		}
+		return sig, fmt.Sprintf("%s: GET %s over [%d,%d] answered %d listed=%v message=%q, which no registered set / source values inside the request interval explain (%s %s). history: %s",
 			sc, map[string]string{"GR": "/ready", "GH": "/health"}[q.Kind], q.inv, q.ret, q.Code, q.Listed, q.Msg, k, d, w.describe())
 	}
 	return "", ""
